@@ -107,6 +107,14 @@ func (f *Track1) Unpack(data []byte) (int, error) {
 		if err != nil {
 			return 0, err
 		}
+	} else {
+		// an empty track has no components: forget those a previous Unpack
+		// or SetBytes left behind
+		f.FormatCode, f.PrimaryAccountNumber, f.Name = "", "", ""
+		f.ExpirationDate, f.ServiceCode, f.DiscretionaryData = nil, "", ""
+		if f.data != nil {
+			*(f.data) = *f
+		}
 	}
 
 	return bytesRead, nil
